@@ -947,6 +947,10 @@ type RepeatCase struct {
 	Methods []string `json:"methods"` // distinct
 	Again   int      `json:"again"`   // index into Methods
 	Group   bool     `json:"in_group,omitempty"`
+	// OtherScope: the second declaration is made through the same Combo value
+	// inside another group ("/v2"), where no route of that path exists: it is the
+	// Combo itself that has to refuse.
+	OtherScope bool `json:"repeated_inside_another_group,omitempty"`
 }
 
 func checkRepeat(c RepeatCase) evid.Outcome {
@@ -962,6 +966,10 @@ func checkRepeat(c RepeatCase) evid.Outcome {
 		}
 		func() {
 			defer func() { refused = recover() }()
+			if c.OtherScope {
+				f.Group("/v2", func() { comboCall(cr, c.Methods[c.Again], func() { ran += "second" }) })
+				return
+			}
 			comboCall(cr, c.Methods[c.Again], func() { ran += "second" })
 		}()
 	}
@@ -1001,6 +1009,7 @@ func TestComboRepeat(t *testing.T) {
 		perm := rapid.Permutation(model.Methods).Draw(t, "methods")
 		c := RepeatCase{Methods: perm[:rapid.IntRange(1, 5).Draw(t, "n")], Group: rapid.Bool().Draw(t, "group")}
 		c.Again = rapid.IntRange(0, len(c.Methods)-1).Draw(t, "again")
+		c.OtherScope = rapid.IntRange(0, 2).Draw(t, "otherscope") == 0
 		evid.Run(t, "combo-repeat", c, func() evid.Outcome { return checkRepeat(c) })
 	})
 }
